@@ -23,7 +23,7 @@ RULE = (
     "on_missing (ignore/warn/error); inputs for scoped runs are taken from the unscoped run's values; both runners (async under SimLoop delays); an "
     "injected node failure gives FAILED partial results and a pausing interrupt gives PAUSED ones. Non-trivial = entry points excluded >=1 node, or a "
     "selection removed >=1 produced output, or a failing/paused result was filtered; distinct = digest of (program shape, scope, selections, outcome kind)."
-    ' Also: the unconfigured graph object is run once and the scoped graph is derived from that same instance (object reuse).'
+    ' Also: the unconfigured graph object is run once and the scoped graph is derived from that same instance (object reuse); the same configured graph through runner.map over one item must give the run result (both runners).'
 )
 ASSUMPTIONS = [
     "value equality with the unscoped run is asserted only for gate-free scopes (an excluded gate legitimately changes which branches can run)",
@@ -347,6 +347,25 @@ def run_case(doc: dict) -> dict:
                         viol.append((f"{tag}:unexpected_missing_output_warning", {"on_missing": doc["on_missing"], "missing": missing, "warnings": warned[:1]}))
                     if missing:
                         res["stats"]["probe_on_missing_" + doc["on_missing"]] = res["stats"].get("probe_on_missing_" + doc["on_missing"], 0) + 1
+                # ---- the same configured graph through runner.map over ONE item: the item's result is the run's result
+                if out["status"] == "completed" and not faults and not doc.get("interrupt") and isinstance(w["values"], dict):
+                    gi = w["graph"].inputs.all
+                    names = [k for k in sorted(w["values"]) if k in gi and isinstance(w["values"][k], int) and not isinstance(w["values"][k], bool)]
+                    if names:
+                        mname = names[0]
+                        mvals = dict(w["values"])
+                        mvals[mname] = [mvals[mname]]
+                        wm = run_world(gs, mvals, mode=mode, cfg=doc["cfg"], run_kwargs=dict(kw, map_over=mname), op="map", cache=cache, derive=derive, warm_values=wref["values"])
+                        rts.append(wm["rt"])
+                        res["runs"] += 1
+                        om = wm["out"]
+                        if om["status"] == "list" and len(om["items"]) == 1:
+                            it = om["items"][0]
+                            res["stats"]["probe_map_of_one_item"] = res["stats"].get("probe_map_of_one_item", 0) + 1
+                            if it["status"] != "completed" or canon(it["values"]) != canon(vals):
+                                viol.append((f"{tag}:map_item_result_differs_from_run_result", {"map_over": mname, "item": [it["status"], it["values"], it["error"]], "run": vals, "selection": eff}))
+                        elif not (om["status"] == "raised" and om["error"] and om["error"][0] in ("ValueError", "GraphConfigError", "MissingInputError", "IncompatibleRunnerError")):
+                            viol.append((f"{tag}:map_of_one_item_unexpected_outcome", {"status": om["status"], "error": om["error"]}))
                 if eff is not None and any(k not in (eff or []) for k in produced_all):
                     res["stats"]["probe_selection_removed_output"] = res["stats"].get("probe_selection_removed_output", 0) + 1
     except BuildError:
